@@ -60,6 +60,10 @@ type ReadCfg struct {
 	Bufio int
 	// ZeroBuf: the application now and then calls Read with an empty buffer.
 	ZeroBuf bool
+	// PerFrame: data messages are consumed frame by frame (NextFrame, then
+	// exactly Header.Length bytes), like a relay would (needs OnInter == 0,
+	// no OnCont, no CheckUTF8).
+	PerFrame bool
 	// Retry: the application retries a Read that failed with a temporary
 	// net.Error (the transport is told where to fail: Pipe.Transient).
 	Retry bool
@@ -336,6 +340,45 @@ func appReader(r *eng.Run, p *Pipe, cfg ReadCfg, o *Outcome) {
 			rec.Kind = 'C'
 		}
 		if cfg.SkipEmpty && h.Length == 0 && h.Fin {
+			rec.EndAt = pos()
+			o.Recs = append(o.Recs, *rec)
+			continue
+		}
+		if cfg.PerFrame && rec.Kind == 'M' {
+			// A relay: frame by frame, exactly the announced number of bytes
+			// of each, NextFrame in between (control frames between the
+			// fragments are taken care of by the Reader: no handler is set).
+			cur, failed := h, false
+			for !failed {
+				if cur.Length > 0 {
+					b := make([]byte, cur.Length)
+					n, err := io.ReadFull(rd, b)
+					rec.Data = append(rec.Data, b[:n]...)
+					if err != nil {
+						o.Open, o.Err, o.ErrAt = rec, err, "Read"
+						failed = true
+						break
+					}
+				}
+				if cur.Fin {
+					break
+				}
+				for {
+					var err error
+					if cur, err = rd.NextFrame(); err != nil {
+						o.Open, o.Err, o.ErrAt = rec, err, "NextFrame"
+						failed = true
+						break
+					}
+					if !cur.OpCode.IsControl() {
+						break
+					}
+				}
+			}
+			if failed {
+				return
+			}
+			r.Probe("message_consumed_frame_by_frame")
 			rec.EndAt = pos()
 			o.Recs = append(o.Recs, *rec)
 			continue
